@@ -206,6 +206,12 @@ RUNTIME_CORES = [
     ("deep-stack", "local f(x) = f(x + 1) + 1; f(0)"), ("super-no-super", "{a: super.b}.a"),
     ("compare", "{} < {}"), ("compare-items", "[1, {}] < [1, {}]"), ("equals-fn", "[function() 1] == [function() 1]"),
     ("slice-type", '[1][::"a"]'), ("for-non-array", "[x for x in 1]"), ("field-name-type", "{[1]: 2}"),
+    # failing inside the part of the standard library that is written in Jsonnet (<stdlib> spans)
+    ("stdlib-abs", 'std.abs("a")'), ("stdlib-max", 'std.max(1, "a")'), ("stdlib-clamp", 'std.clamp("a", 1, 2)'),
+    ("stdlib-round", 'std.round("x")'), ("stdlib-isEmpty", "std.isEmpty(1)"), ("stdlib-lines", "std.lines(1)"),
+    ("stdlib-objectValues", 'std.objectValues({a: error "v"})[0]'), ("stdlib-get", 'std.get(1, "a")'),
+    ("stdlib-manifestJson", "std.manifestJson(function() 1)"), ("stdlib-objectHas", 'std.objectHas(1, "a")'),
+    ("stdlib-sign", 'std.sign("a")'), ("stdlib-xor-deep", "std.objectKeysValues({a: error 'kv'})[0].value"),
     ("dup-field-dyn", "{[k]: 1 for k in ['a', 'a']}"), ("tailstrict", "local f(x) = error 'x'; f(1) tailstrict"),
 ]
 RUNTIME_WRAPPERS = [
